@@ -53,6 +53,8 @@ def obligations(tier):
                           bounds='member, signature selectors; serial u32; argument int32; expectReply symbolic'))
     obs.append(Ob('seq:two-calls', 'seq', {}, timeout=900, path_timeout=60, twin=True, functions=FUNCS,
                   bounds='two consecutive calls on one exported instance: (interface, member) x (interface, member) selectors'))
+    obs.append(Ob('unexp:call-unexport-call', 'unexp', {}, timeout=600, path_timeout=60, twin=True, functions=FUNCS,
+                  bounds='(interface, member) selectors; the same call before an unexport, after it, and after a re-export'))
     obs.append(Ob('builtin:ping', 'ping', {}, timeout=60, twin=True, functions=FUNCS[:1],
                   bounds='serial u32, expectReply symbolic'))
     return obs
@@ -257,6 +259,62 @@ def build(family, p):
             reached()
         h.__name__ = 'ping'
         return Spec(h, [('S', int), ('er', bool)], witnesses=[(1, True), (2 ** 32 - 1, False)])
+
+    if family == 'unexp':
+        U_IF = [None, 'org.t.I1', 'org.t.I2', 'org.t.I0']
+        U_MEM = ['Who', 'Same', 'Echo', 'Pair', 'Inherited', 'Nothing']
+        usizes = [len(U_IF), len(U_MEM), 2]
+
+        def hu(code):
+            sel = decode_choice(code, usizes)
+            with notrace():
+                run_u(sel)
+            reached()
+
+        def run_u(sel):
+            iface, member, again = U_IF[sel[0]], U_MEM[sel[1]], sel[2]
+            conn = W['Conn']()
+            handler = objects.DBusObjectHandler(conn)
+            obj = W['Obj']('/obj')
+            handler.exportObject(obj)
+            verdict0, found0 = ref_dispatch('/obj', iface, member, None)
+            sig = None
+            if found0 is not None and member in DECL.get(found0, {}):
+                sig = DECL[found0][member][0] or None
+            body = {None: None, 'i': [5], 's': ['arg']}[sig]
+            verdict, found = ref_dispatch('/obj', iface, member, sig)
+
+            def one(serial):
+                message.DBusMessage._nextSerial = serial
+                call = message.MethodCallMessage('/obj', member, interface=iface, signature=sig, body=body)
+                call.sender = SENDER
+                call._marshal(False)
+                msg = message.parseMessage(call.rawMessage, [])
+                message.DBusMessage._nextSerial = 70 + serial
+                obj.log[:] = []
+                n0 = len(conn.sent)
+                handler.handleMethodCallMessage(msg)
+                out = [m for m in conn.sent[n0:] if m._messageType in (2, 3)]
+                check(len(out) == 1 and out[0].reply_serial == serial, 'each call must get exactly one reply')
+                return out[0], list(obj.log)
+            r1, log1 = one(50)
+            if verdict == 'run':
+                check(r1._messageType == 2 and len(log1) == 1, 'an exported method must run and return')
+            else:
+                check(r1._messageType == 3 and log1 == [], 'a call that does not match must be refused')
+            handler.unexportObject('/obj')
+            r2, log2 = one(51)
+            check(log2 == [], 'user code ran for an object that is not exported any more')
+            check(r2._messageType == 3 and r2.error_name == 'org.freedesktop.DBus.Error.UnknownObject',
+                  'a call to an unexported path must be answered UnknownObject')
+            if again:
+                handler.exportObject(obj)
+                r3, log3 = one(52)
+                check((r3._messageType, len(log3)) == (r1._messageType, len(log1)) and r3.body == r1.body,
+                      'after exporting the object again the call must behave as before')
+        hu.__name__ = 'unexp'
+        return Spec(hu, [('code', int)], witnesses=[(encode_choice(w, usizes),) for w in
+                                                   ([1, 2, 0], [0, 0, 1], [3, 1, 1], [2, 1, 0], [1, 4, 1])])
 
     if family == 'seq':
         SEQ_IF = [None, 'org.t.I1', 'org.t.I2', 'org.t.I0']
